@@ -100,6 +100,9 @@ trait FbDyn {
     /// pixel map left by drawing the part of `as_image()` from (1,1) to the bottom right corner, in place
     /// (`Image::new(&as_image().sub_image(&area), (1,1))`), on `R1`
     fn sub_image_map(&self) -> PMap;
+    /// pixel map left by drawing `as_image()` at (-2,-1) on a BOUNDED native-fill target with box (0,0) W x H: the
+    /// image sticks out over the left and top edge of the target
+    fn image_map_cut(&self) -> PMap;
     /// `as_image()` equals the `ImageRaw` of the same colour type and order over `data()[0..BUFFER_SIZE]`
     fn image_is_raw_over_prefix(&self, buffer_size: usize) -> bool;
     fn dims(&self) -> (u32, u32);
@@ -145,6 +148,12 @@ macro_rules! fb_body {
             let size = self.size();
             let area = Rectangle::new(Point::new(1, 1), Size::new(size.width.saturating_sub(1), size.height.saturating_sub(1)));
             Image::new(&raw.sub_image(&area), Point::new(1, 1)).draw(&mut r).unwrap();
+            r.rec.map
+        }
+        fn image_map_cut(&self) -> PMap {
+            let mut r = R2::<C>::new(Rectangle::new(Point::zero(), self.size()));
+            let raw = self.as_image();
+            Image::new(&raw, Point::new(-2, -1)).draw(&mut r).unwrap();
             r.rec.map
         }
         fn image_is_raw_over_prefix(&self, buffer_size: usize) -> bool {
@@ -812,6 +821,18 @@ impl Module for M {
             ctx.count("as-image:part-drawn");
         }
         ctx.expect(sub == want_sub, "as-image-part-draw", || format!("{} drawn {} want {}", op, fmt_map(&sub), fmt_map(&want_sub)));
+        // ... and drawing it so that it sticks out over the left and top edge of a bounded target shows the part that is
+        // inside, at the right place (seeded change C10-r3-2 drew "the visible part" at the target's origin)
+        let cut = fb.image_map_cut();
+        let want_cut: PMap = want_img
+            .iter()
+            .filter(|((y, x), _)| *y >= 1 && *x >= 2)
+            .map(|((y, x), v)| ((*y - 1, *x - 2), *v))
+            .collect();
+        if !want_cut.is_empty() {
+            ctx.count("as-image:drawn-cut-by-the-target");
+        }
+        ctx.expect(cut == want_cut, "as-image-draw-cut-by-target", || format!("{} drawn {} want {}", op, fmt_map(&cut), fmt_map(&want_cut)));
 
         let mut grid = Vec::new();
         for y in -1..=hi {
